@@ -4,7 +4,7 @@ usage: seed_store.py <id> <property> <k> <first_run> <caught_by> <note> [<sv-out
 import json, os, shutil, sys
 name, prop, k, first, caught_by, note = sys.argv[1:7]
 svf = sys.argv[7] if len(sys.argv) > 7 else "/tmp/sv-%s-%s.out" % (prop.lower(), k)
-src = "/tmp/seed-%s/OUT" % prop
+src = os.environ.get("SEEDSRC") or "/tmp/seed-%s/OUT" % prop
 dst = "/verif/seeded/%s" % name
 shutil.rmtree(dst, ignore_errors=True)
 os.makedirs(dst)
